@@ -29,10 +29,11 @@ ap.add_argument("sid")
 ap.add_argument("--place", action="append", default=[])
 ap.add_argument("--cmd", required=True)
 ap.add_argument("--pkgs", required=True)
+ap.add_argument("--base", default="HEAD", help="commit of /repo to confirm against (default HEAD); use an older commit when a later fix: commit makes the demo itself unusable")
 a = ap.parse_args()
 if os.path.isdir(WT):
     sh("git -C /repo worktree remove --force " + WT)
-rc, out = sh("git -C /repo worktree add --detach %s HEAD" % WT)
+rc, out = sh("git -C /repo worktree add --detach %s %s" % (WT, a.base))
 assert rc == 0, out
 log = {}
 try:
@@ -70,7 +71,7 @@ try:
             shutil.copy(os.path.join(a.cand, f), os.path.join(dst, f))
         meta = json.load(open(os.path.join(a.cand, "meta.json")))
         meta["demo"] = {"place": a.place, "cmd": a.cmd}
-        meta["confirmed"] = {"by": "tools/confirm_seed.py in a scratch worktree of /repo HEAD " + sh("git -C /repo rev-parse --short HEAD")[1].strip().split("\n")[-1],
+        meta["confirmed"] = {"by": "tools/confirm_seed.py in a scratch worktree of /repo at " + sh("git -C /repo rev-parse --short " + a.base)[1].strip().split("\n")[-1],
                              "demo_passes_unchanged": True, "builds_with_change": True, "demo_fails_with_change": True,
                              "existing_tests_pass_with_change": log["existing_tests_with_change"]["cmd"]}
         json.dump(meta, open(os.path.join(dst, "meta.json"), "w"), indent=1)
